@@ -1,18 +1,59 @@
 //go:build verif
 
 // Contracts for casblob.go, checked by /verif (govc). Comment-only file.
+//
+// The bytes of a file are not modelled: binary.Read yields arbitrary values, so
+// a header is ANY sequence of field values. What is proved is what the readers
+// may rely on after readHeader accepted it (wfHeader), that their arithmetic on
+// it cannot panic, and that the writer finalises the chunk table only after the
+// length probe and the digest comparison succeeded.
 
 package casblob
 
+//@ pred offs(h, i) = h.chunkOffsets[i]
+//@ pred nOffs(h) = len(h.chunkOffsets)
+// number of chunks of size cs needed for n bytes (ceiling division, spelled as in the code)
+//@ pred nChunks(n, cs) = n / cs + ((n % cs != 0) ? 1 : 0)
+
+// What readHeader establishes (and the readers rely on).
+//@ pred wfHeader(h) = h != nil && nOffs(h) >= 2 && h.uncompressedSize > 0 &&
+//@   (forall i Int, j Int :: (0 <= i && i < j && j < nOffs(h)) ==> offs(h, i) < offs(h, j)) &&
+//@   (forall k Int :: (0 <= k && k < nOffs(h)) ==> (0 <= offs(h, k) && offs(h, k) <= 140737488355328)) &&
+//@   (forall m Int :: (0 <= m && m + 1 < nOffs(h)) ==> (0 < offs(h, m + 1) - offs(h, m) && offs(h, m + 1) - offs(h, m) <= 140737488355328)) &&
+//@   (h.compression == 1 ==> (h.chunkSize > 0 && nOffs(h) - 1 == nChunks(h.uncompressedSize, h.chunkSize)))
+
+//@ func (h *header) size() int64
+//@   serves C20
+//@   requires h != nil && len(h.chunkOffsets) < 268435456
+//@   ensures[C20] layout: result == 29 + 8 * len(h.chunkOffsets)
+
+//@ func (h *header) frameSize() uint32
+//@   serves C20
+//@   requires h != nil && len(h.chunkOffsets) < 268435456
+//@   ensures[C20] layout: result == 21 + 8 * len(h.chunkOffsets)
+
+//@ func readHeader(f *os.File) (*header, error)
+//@   serves C02 C08 C14 C20
+//@   requires f != nil
+//@   ensures[C02,C14,C20] accepted: result1 == nil ==> wfHeader(result0)
+//@   ensures[C14] rejected: result1 != nil ==> result0 == nil
+//@   loop 0 invariant idx: 0 <= i && i <= numOffsets && numOffsets == len(h.chunkOffsets) && numOffsets >= 2
+//@   loop 0 invariant incr: forall a Int, b Int :: (0 <= a && a < b && b < i) ==> offs(h, a) < offs(h, b)
+//@   loop 0 invariant prev: (i == 0 ==> prevOffset == 0 - 1) && (i > 0 ==> prevOffset == offs(h, i - 1))
+//@   loop 0 invariant bound: forall a Int :: (0 <= a && a < i) ==> (0 <= offs(h, a) && offs(h, a) <= prevOffset)
+//@   loop 0 modifies nothing
+
 //@ func GetUncompressedReadCloser(zstd zstdimpl.ZstdImpl, f *os.File, expectedSize int64, offset int64) (io.ReadCloser, error)
-//@   trusted
+//@   serves C02 C14 C20
 //@   requires f != nil && zstd != nil
-//@   ensures (result1 == nil) <==> (result0 != nil)
+//@   requires[C02] offset: 0 <= offset && (expectedSize != 0 - 1 ==> offset < expectedSize) && (expectedSize == 0 - 1 ==> offset == 0)
+//@   ensures[C14] oneof: (result1 == nil) <==> (result0 != nil)
 
 //@ func GetZstdReadCloser(zstd zstdimpl.ZstdImpl, f *os.File, expectedSize int64, offset int64) (io.ReadCloser, error)
-//@   trusted
+//@   serves C02 C14 C20
 //@   requires f != nil && zstd != nil
-//@   ensures (result1 == nil) <==> (result0 != nil)
+//@   requires[C02] offset: 0 <= offset && (expectedSize != 0 - 1 ==> offset < expectedSize) && (expectedSize == 0 - 1 ==> offset == 0)
+//@   ensures[C14] oneof: (result1 == nil) <==> (result0 != nil)
 
 //@ func GetLegacyZstdReadCloser(zstd zstdimpl.ZstdImpl, f *os.File) (io.ReadCloser, error)
 //@   trusted
